@@ -317,4 +317,244 @@ theorem mdr_m1_facts {d : Nat} (m : MMetaSlab (MTree r d)) (x : Option DX) (s s1
 
 end tails
 
+section full
+variable {r : Nat} (eb : DEnvB r) (rs : DRestruct r) (cfg : MCfg) (k : MKey) (v : Elem) (P : DG r → Prop)
+
+/-- the statement proved by induction on the depth: the generated dispatch on a held tree is the translation of the
+    model's `MTree.remove`, error or not -/
+def MRRemoveOk (d : Nat) : Prop :=
+  ∀ (t : MTree r d) (x : Option DX) (s : MHSt r) (depth : Nat), d ≤ depth → mdr_WF d t x → (md_ids d t).Nodup →
+    MHolds s.heap d t x → mdr_Sizes cfg k d t s.ctx →
+    match MTree.remove cfg d t k s.ctx with
+    | .ok (rk, rv, t', c') =>
+      ∃ s', MapSlab_Remove (envD cfg.T eb rs) (MapMetaDataSlab_Remove (envD cfg.T eb rs) depth) (md_tree d t x) s k (u64 0)
+              (u64 (k.dig 0)) (.key k) = some (some (.key rk), some (.val rv), none, md_tree d t' x, s') ∧
+            s'.ctx = c' ∧ s'.popped = s.popped ∧ MRPost s.heap s'.heap t t' x
+    | .error e =>
+      ∃ tt ss, MapSlab_Remove (envD cfg.T eb rs) (MapMetaDataSlab_Remove (envD cfg.T eb rs) depth) (md_tree d t x) s k (u64 0)
+              (u64 (k.dig 0)) (.key k) = some (none, none, some e, tt, ss) ∧
+            (mdr_ErrClean cfg k d t s.ctx → tt = md_tree d t x ∧ ss = s)
+
+theorem mdr_full_leaf (hE : ElemsSpec cfg k v P eb) (hP : ∀ g, P g) (sl : MDataSlab r) (x : Option DX) (s : MHSt r)
+    (rec_ : MapMetaDataSlab DX → MHSt r → MKey → UInt64 → UInt64 → SW →
+      Option (Option SV × Option SV × Option GE × MapMetaDataSlab DX × MHSt r))
+    (hx : x.isSome = sl.root) (hinl : sl.inlined = false) :
+    match MDataSlab.remove cfg sl k s.ctx with
+    | .ok (rk, rv, sl', c') =>
+      ∃ s', MapSlab_Remove (envD cfg.T eb rs) rec_ (.dataSlab (md_data sl x)) s k (u64 0) (u64 (k.dig 0)) (.key k) =
+              some (some (.key rk), some (.val rv), none, .dataSlab (md_data sl' x), s') ∧
+            s'.ctx = c' ∧ s'.popped = s.popped ∧
+            MRPost s.heap s'.heap (d := 0) (sl : MDataSlab r) (sl' : MDataSlab r) x
+    | .error e =>
+      ∃ tt ss, MapSlab_Remove (envD cfg.T eb rs) rec_ (.dataSlab (md_data sl x)) s k (u64 0) (u64 (k.dig 0)) (.key k) =
+              some (none, none, some e, tt, ss) ∧ (True → tt = .dataSlab (md_data sl x) ∧ ss = s) := by
+  have hgo := Ob_MapDataSlab_Remove_heap cfg.T eb rs cfg k v P hE sl x hx (hP _) s
+  cases hrem : MDataSlab.remove cfg sl k s.ctx with
+  | error e =>
+    rw [hrem] at hgo
+    refine ⟨.dataSlab (md_data sl x), s, ?_, fun _ => ⟨rfl, rfl⟩⟩
+    simp only [MapSlab_Remove, hgo]
+  | ok q =>
+    obtain ⟨rk, rv, sl', c'⟩ := q
+    rw [hrem] at hgo
+    obtain ⟨hinl', hid⟩ := mdr_data_remove_inv hrem
+    rw [hinl] at hinl'
+    refine ⟨mdr_leafSt s sl' x c', ?_, rfl, rfl, ?_, ?_, ?_⟩
+    · simp only [MapSlab_Remove, hgo]
+    · show (mdr_leafSt s sl' x c').heap sl'.hdr.id = some (.dataSlab (md_data sl' x))
+      simp only [mdr_leafSt, hinl', Bool.false_eq_true, if_false, if_true]
+    · have e : md_ids 0 (sl' : MDataSlab r) = md_ids 0 (sl : MDataSlab r) := by
+        show [sl'.hdr.id] = [sl.hdr.id]; rw [hid]
+      rw [e]
+      refine ⟨?_, fun id h1 h2 => absurd h1 h2, fun id h1 h2 => absurd h1 h2⟩
+      intro id h1 _
+      have hne : id ≠ sl'.hdr.id := by
+        rw [hid]; intro h; exact h1 (by rw [h]; exact List.mem_singleton.mpr rfl)
+      simp only [mdr_leafSt, hinl', Bool.false_eq_true, if_false, hne]
+    · exact List.nodup_cons.mpr ⟨List.not_mem_nil, List.nodup_nil⟩
+
+theorem mdr_afterChild_eq {d : Nat} (T : Nat) (m : MMetaSlab (MTree r d)) (child' : MTree r d) (i : Nat) (c1 : Ctx) :
+    m.afterChild T child' i c1 =
+      if MTree.isFull T d child' then (mdr_model_m1 m child' i).splitChildSlab child' i c1
+      else match MTree.isUnderflow T d child' with
+        | some u => (mdr_model_m1 m child' i).mergeOrRebalanceChildSlab T child' i u c1
+        | none => .ok (mdr_model_m1 m child' i, c1.emit (.store m.hdr.id)) := rfl
+
+theorem mdr_full_level (hS : MRSplitTail cfg.T rs) (hM : MRMorTail cfg.T rs) (hmax : maxThr cfg.T < 2^32)
+    (hmin : minThr cfg.T < 2^32) (hk : k.dig 0 < 2^64) (d : Nat) (ih : MRRemoveOk eb rs cfg k d)
+    (m : MMetaSlab (MTree r d)) (x : Option DX) (s : MHSt r) (depth : Nat) (hd : d + 1 ≤ depth)
+    (hwf : mdr_WF (d + 1) (m : MMetaSlab (MTree r d)) x) (hnd : (md_ids (d + 1) (m : MMetaSlab (MTree r d))).Nodup)
+    (hh : MHolds s.heap (d + 1) (m : MMetaSlab (MTree r d)) x)
+    (hsz : mdr_Sizes cfg k (d + 1) (m : MMetaSlab (MTree r d)) s.ctx) :
+    match MTree.remove cfg (d + 1) (m : MMetaSlab (MTree r d)) k s.ctx with
+    | .ok (rk, rv, t', c') =>
+      ∃ s', MapSlab_Remove (envD cfg.T eb rs) (MapMetaDataSlab_Remove (envD cfg.T eb rs) depth) (.metaSlab (md_meta m x)) s k
+              (u64 0) (u64 (k.dig 0)) (.key k) = some (some (.key rk), some (.val rv), none, md_tree (d + 1) t' x, s') ∧
+            s'.ctx = c' ∧ s'.popped = s.popped ∧ MRPost s.heap s'.heap (d := d + 1) (m : MMetaSlab (MTree r d)) t' x
+    | .error e =>
+      ∃ tt ss, MapSlab_Remove (envD cfg.T eb rs) (MapMetaDataSlab_Remove (envD cfg.T eb rs) depth) (.metaSlab (md_meta m x)) s k
+              (u64 0) (u64 (k.dig 0)) (.key k) = some (none, none, some e, tt, ss) ∧
+            (mdr_ErrClean cfg k (d + 1) (m : MMetaSlab (MTree r d)) s.ctx → tt = .metaSlab (md_meta m x) ∧ ss = s) := by
+  obtain ⟨hhdrs, hfk, hlen, hwfc⟩ := hwf
+  obtain ⟨depth', rfl⟩ : ∃ depth', depth = depth' + 1 := ⟨depth - 1, by omega⟩
+  have hgen : ∀ a b c mm ss, MapMetaDataSlab_Remove (envD cfg.T eb rs) (depth' + 1) (md_meta m x) s k (u64 0)
+        (u64 (k.dig 0)) (.key k) = some (a, b, c, mm, ss) →
+      MapSlab_Remove (envD cfg.T eb rs) (MapMetaDataSlab_Remove (envD cfg.T eb rs) (depth' + 1)) (.metaSlab (md_meta m x)) s k
+        (u64 0) (u64 (k.dig 0)) (.key k) = some (a, b, c, .metaSlab mm, ss) := by
+    intro a b c mm ss hq
+    simp only [MapSlab_Remove, hq]
+  rw [mdr_remove_succ]
+  cases hf : MMetaSlab.findChild m.childHdrs (k.dig 0) 0 m.childHdrs.length none (m.childHdrs.length + 1) with
+  | none =>
+    refine ⟨.metaSlab (md_meta m x), s, ?_, fun _ => ⟨rfl, rfl⟩⟩
+    exact hgen _ _ _ _ _ (Ob_MapMetaDataSlab_Remove_keyNotFound cfg.T eb rs m x s k (k.dig 0) depth' hk hfk hlen hf)
+  | some i =>
+    have hi : i < m.childHdrs.length := by
+      rcases mdr_findChild_lt _ _ _ _ _ _ _ hf with h | h
+      · cases h
+      · exact h.2
+    have hil : i < m.children.length := by rw [hhdrs, List.length_map] at hi; exact hi
+    obtain ⟨child, hc⟩ : ∃ child, m.children[i]? = some child := ⟨_, List.getElem?_eq_getElem hil⟩
+    simp only [hc]
+    have hmem : child ∈ m.children := List.mem_of_getElem? hc
+    obtain ⟨hszc, hsz2⟩ := hsz i child hf hc
+    obtain ⟨A, B, hAB, _, _⟩ := mdr_split_at m.children i child hc
+    obtain ⟨hndc, _, _⟩ := mdr_nodup_facts m A B child hAB hnd
+    have ihc := ih child none s depth' (by omega) (hwfc child hmem) hndc (hh.2 child hmem) hszc
+    have hhdr : m.childHdrs.getD i default = MTree.hdr d child := by
+      rw [hhdrs, List.getD_eq_getElem?_getD, List.getElem?_map, hc]; rfl
+    have hheap : s.heap (m.childHdrs.getD i default).id = some (md_tree d child none) := by
+      rw [hhdr]; exact (hh.2 child hmem).root
+    cases hq : MTree.remove cfg d child k s.ctx with
+    | error e =>
+      rw [hq] at ihc
+      obtain ⟨tt, ss, hdisp, hclean⟩ := ihc
+      refine ⟨.metaSlab (md_meta m x), ss, ?_, ?_⟩
+      · exact hgen _ _ _ _ _ (Ob_MapMetaDataSlab_Remove_childErr cfg.T eb rs m x s k (k.dig 0) depth' hk hfk hlen i hf hi _ _ _ _ _ e
+          hheap hdisp)
+      · intro hcl
+        have h1 := hcl i child hf hc
+        rw [hq] at h1
+        exact ⟨rfl, (hclean h1).2⟩
+    | ok q =>
+      obtain ⟨rk, rv, child', c1⟩ := q
+      rw [hq] at ihc
+      obtain ⟨s1, hdisp, hctx1, hpop1, hpost1⟩ := ihc
+      have hsize := hsz2 rk rv child' c1 hq
+      obtain ⟨hpre, hstep⟩ := mdr_m1_facts m x s s1 i child child' hhdrs hnd hh hc hpost1 hsize
+      have hgo := Ob_MapMetaDataSlab_Remove_step cfg.T eb rs m x s k (k.dig 0) depth' hk hfk hlen i hf hi
+        (md_tree d child none) (md_tree d child' none) s1 _ _ hheap hdisp
+      rw [mdr_hdrOf_md_tree, mdr_m1_md_meta] at hgo
+      have hIF := mdr_isFull_md_tree cfg.T eb rs d child' none hsize hmax
+      have hnoclean : mdr_ErrClean cfg k (d + 1) (m : MMetaSlab (MTree r d)) s.ctx → False := by
+        intro hcl
+        have h1 := hcl i child hf hc
+        rw [hq] at h1
+        exact h1
+      simp only [mdr_afterChild_eq]
+      cases hfull : MTree.isFull cfg.T d child' with
+      | true =>
+        simp only [if_true]
+        have ht := hS d (mdr_model_m1 m child' i) x child' i s1 hpre hfull
+        rw [hctx1] at ht
+        cases hsp : (mdr_model_m1 m child' i).splitChildSlab child' i c1 with
+        | error e =>
+          rw [hsp] at ht
+          obtain ⟨m'', s'', cc, hcall⟩ := ht
+          refine ⟨.metaSlab m'', s'', ?_, fun hcl => (hnoclean hcl).elim⟩
+          refine (hgen _ _ _ _ _ (hgo.trans ?_))
+          simp only [mdr_after, hIF, hfull, hcall, Option.isNone_some, Bool.not_false, if_true]
+        | ok q2 =>
+          obtain ⟨m', c2⟩ := q2
+          rw [hsp] at ht
+          obtain ⟨s', cc, hcall, hctx', hpop', hpost'⟩ := ht
+          refine ⟨s', ?_, hctx', by rw [hpop', hpop1], ⟨hpost'.holds, hstep.trans hpost'.step, hpost'.nodup⟩⟩
+          refine (hgen _ _ _ _ _ (hgo.trans ?_))
+          simp only [mdr_after, hIF, hfull, hcall, Option.isNone_none, Bool.not_true, Bool.false_eq_true, if_false]
+      | false =>
+        simp only [Bool.false_eq_true, if_false]
+        cases hunder : MTree.isUnderflow cfg.T d child' with
+        | some u =>
+          simp only []
+          have hIU := mdr_isUnderflow_md_tree_some cfg.T eb rs d child' none u hsize hmin hunder
+          have ht := hM d (mdr_model_m1 m child' i) x child' i u s1 hpre hfull hunder
+          rw [hctx1] at ht
+          cases hsp : (mdr_model_m1 m child' i).mergeOrRebalanceChildSlab cfg.T child' i u c1 with
+          | error e =>
+            rw [hsp] at ht
+            obtain ⟨m'', s'', cc, hcall⟩ := ht
+            refine ⟨.metaSlab m'', s'', ?_, fun hcl => (hnoclean hcl).elim⟩
+            refine (hgen _ _ _ _ _ (hgo.trans ?_))
+            simp only [mdr_after, hIF, hfull, hIU, hcall, Option.isNone_some, Bool.not_false, if_true]
+          | ok q2 =>
+            obtain ⟨m', c2⟩ := q2
+            rw [hsp] at ht
+            obtain ⟨s', cc, hcall, hctx', hpop', hpost'⟩ := ht
+            refine ⟨s', ?_, hctx', by rw [hpop', hpop1], ⟨hpost'.holds, hstep.trans hpost'.step, hpost'.nodup⟩⟩
+            refine (hgen _ _ _ _ _ (hgo.trans ?_))
+            simp only [mdr_after, hIF, hfull, hIU, hcall, Option.isNone_none, Bool.not_true, Bool.false_eq_true, if_false]
+        | none =>
+          simp only []
+          have hIU := mdr_isUnderflow_md_tree cfg.T eb rs d child' none hsize hmin hunder
+          have hrootnot : ∀ id ∈ (mdr_model_m1 m child' i).children.flatMap (md_ids d), id ≠ m.hdr.id := by
+            intro id hid heq
+            exact (List.nodup_cons.mp hpre.nodup).1 (heq ▸ hid)
+          refine ⟨s1.store m.hdr.id (.metaSlab (md_meta (mdr_model_m1 m child' i) x)), ?_, ?_, ?_, ⟨⟨?_, ?_⟩, ?_, hpre.nodup⟩⟩
+          · refine (hgen _ _ _ _ _ (hgo.trans ?_))
+            simp only [mdr_after, hIF, hfull, hIU]
+            rfl
+          · rw [MHSt.store_ctx, hctx1]
+          · rw [MHSt.store_popped, hpop1]
+          · show (s1.store m.hdr.id _).heap (mdr_model_m1 m child' i).hdr.id = _
+            simp only [MHSt.store_heap, mdr_model_m1, if_true]
+          · intro c hcm
+            refine mdr_MHolds_congr d c none (fun id hid => ?_) (hpre.held c hcm)
+            rw [MHSt.store_heap, if_neg (hrootnot id (List.mem_flatMap.mpr ⟨c, hcm, hid⟩))]
+          · refine hstep.trans ⟨?_, fun id h1 h2 => absurd h1 h2, fun id h1 h2 => absurd h1 h2⟩
+            intro id h1 _
+            have hne : id ≠ m.hdr.id := fun h => h1 (by rw [h]; exact List.mem_cons_self)
+            rw [MHSt.store_heap, if_neg hne]
+
+theorem mdr_full_all (hE : ElemsSpec cfg k v P eb) (hP : ∀ g, P g) (hS : MRSplitTail cfg.T rs) (hM : MRMorTail cfg.T rs)
+    (hmax : maxThr cfg.T < 2^32) (hmin : minThr cfg.T < 2^32) (hk : k.dig 0 < 2^64) : ∀ d, MRRemoveOk eb rs cfg k d := by
+  intro d
+  induction d with
+  | zero =>
+    intro t x s depth _ hwf _ _ _
+    exact mdr_full_leaf eb rs cfg k v P hE hP t x s _ hwf.1 hwf.2
+  | succ d ih =>
+    intro t x s depth hd hwf hnd hh hsz
+    exact mdr_full_level eb rs cfg k hS hM hmax hmin hk d ih t x s depth hd hwf hnd hh hsz
+
+/-- THE WHOLE `MapSlab.Remove` over a heap, every branch (store / `SplitChildSlab` / `MergeOrRebalanceChildSlab`), for ANY
+    restructuring record `rs` that satisfies the two tails: on a tree held by the heap the generated dispatch is the
+    translation of the model's `MTree.remove` - removed key / value, the new tree `md_tree d t' x`, the storage carries
+    the model's `Ctx`, holds the new tree, `MRStep` relative to the identifiers of the old and the new tree (frame, gone,
+    fresh), identifiers distinct; a model error `e` comes back as `e`, and with nothing changed when it does not come out
+    of a restructuring call (`mdr_ErrClean`: `KeyNotFound` at any level, element-layer errors) -/
+theorem Ob_MapSlab_Remove_heap_of_tails (hE : ElemsSpec cfg k v P eb) (hP : ∀ g, P g) (hS : MRSplitTail cfg.T rs)
+    (hM : MRMorTail cfg.T rs) (hmax : maxThr cfg.T < 2^32) (hmin : minThr cfg.T < 2^32) (hk : k.dig 0 < 2^64)
+    (d : Nat) (t : MTree r d) (x : Option DX) (s : MHSt r) (depth : Nat) (hd : d ≤ depth) (hwf : mdr_WF d t x)
+    (hnd : (md_ids d t).Nodup) (hh : MHolds s.heap d t x) (hsz : mdr_Sizes cfg k d t s.ctx) :
+    match MTree.remove cfg d t k s.ctx with
+    | .ok (rk, rv, t', c') =>
+      ∃ s', MapSlab_Remove (envD cfg.T eb rs) (MapMetaDataSlab_Remove (envD cfg.T eb rs) depth) (md_tree d t x) s k (u64 0)
+              (u64 (k.dig 0)) (.key k) = some (some (.key rk), some (.val rv), none, md_tree d t' x, s') ∧
+            s'.ctx = c' ∧ s'.popped = s.popped ∧ MRPost s.heap s'.heap t t' x
+    | .error e =>
+      ∃ tt ss, MapSlab_Remove (envD cfg.T eb rs) (MapMetaDataSlab_Remove (envD cfg.T eb rs) depth) (md_tree d t x) s k (u64 0)
+              (u64 (k.dig 0)) (.key k) = some (none, none, some e, tt, ss) ∧
+            (mdr_ErrClean cfg k d t s.ctx → tt = md_tree d t x ∧ ss = s) :=
+  mdr_full_all eb rs cfg k v P hE hP hS hM hmax hmin hk d t x s depth hd hwf hnd hh hsz
+
+/-- `KeyNotFound` of the model is never the error of a restructuring call... at the top of the path: an index slab whose
+    search finds no child is `mdr_ErrClean` -/
+theorem mdr_ErrClean_of_notFound {d : Nat} (m : MMetaSlab (MTree r d)) (c : Ctx)
+    (hf : MMetaSlab.findChild m.childHdrs (k.dig 0) 0 m.childHdrs.length none (m.childHdrs.length + 1) = none) :
+    mdr_ErrClean cfg k (d + 1) (m : MMetaSlab (MTree r d)) c := by
+  intro i child hf' _
+  rw [hf] at hf'; cases hf'
+
+end full
+
 end Atree.TransEq
